@@ -535,8 +535,22 @@ impl PoolGen {
                 }
             }
         }
-        let (who, pid, lp, bal) = holders.choose(&mut self.rng)?.clone();
-        if self.rng.gen_range(0..45) == 0 {
+        let (mut who, mut pid, mut lp, mut bal) = holders.choose(&mut self.rng)?.clone();
+        if self.rng.gen_range(0..35) == 0 {
+            // prefer a pool all of whose LP (but the contract's own locked minimum) is in the
+            // hands of accounts that can withdraw: its supply then falls to exactly the minimum
+            let drainable: Vec<&(Addr, String, String, u128)> = holders
+                .iter()
+                .filter(|h| {
+                    let p = &obs.pools[&h.1];
+                    let sum: u128 = holders.iter().filter(|x| x.1 == h.1).map(|x| x.3).sum();
+                    p.supply.saturating_sub(obs.bal(&w.pm, &p.info.lp_denom)) == sum
+                })
+                .collect();
+            if let Some(h) = drainable.choose(&mut self.rng) {
+                (who, pid, lp, bal) = (*h).clone();
+            }
+            let _ = (&lp, bal);
             // exodus: every holder of this pool's LP leaves (only the locked minimum, and what
             // is locked in the farm manager, stays, backed by dust that carries every fee the
             // pool ever earned), dust-sized trades follow, then somebody seeds the pool again
